@@ -617,15 +617,37 @@ def mk_sym(tab, order, subs):
 
 
 def random_element(rng, m, leaves, maxdepth):
-    def sym():
+    def order(n):
+        o = list(range(n))
+        if rng.random() < 0.75:  # the dictionary is written in an arbitrary order
+            rng.shuffle(o)
+        return o
+
+    def variant(a):
+        """An element with the reference and physical shape of a: same tree, leaves of compatible kinds, symmetry
+        dictionaries written in another order."""
+        if a["kind"] in LEAF:
+            return rng.choice([l for l in leaves if l["refshape"] == a["refshape"] and phys_shape(l, m) == phys_shape(a, m)])
+        subs = [variant(s) for s in a["subs"]]
+        if a["kind"] == "mixed":
+            return mk_mixed(subs)
+        D = list(a["symmetry"])
+        rng.shuffle(D)
+        return dict(a, subs=subs, symmetry=D)
+
+    def sym(d):
         tab = rng.choice(SYM_PATTERNS)
         nsub = max(tab[1])
-        order = list(range(len(tab[1])))
-        if rng.random() < 0.75:  # the dictionary is written in an arbitrary order
-            rng.shuffle(order)
-        a = rng.choice([l for l in leaves if len(l["refshape"]) <= 2])
-        cands = [l for l in leaves if l["refshape"] == a["refshape"] and phys_shape(l, m) == phys_shape(a, m)]
-        return mk_sym(tab, order, [a] + [rng.choice(cands) for _ in range(nsub - 1)])
+        if d < maxdepth and rng.random() < 0.3:  # composite sub-elements
+            small = [l for l in leaves if ref_size(l) <= 3]
+            if rng.random() < 0.6:
+                a = mk_mixed([rng.choice(small) for _ in range(rng.choice((1, 2, 2, 3)))])
+            else:
+                t2 = rng.choice(SYM_PATTERNS)
+                a = mk_sym(t2, order(len(t2[1])), [rng.choice([l for l in leaves if not l["refshape"]])] * max(t2[1]))
+        else:
+            a = rng.choice([l for l in leaves if len(l["refshape"]) <= 2])
+        return mk_sym(tab, order(len(tab[1])), [a] + [variant(a) for _ in range(nsub - 1)])
 
     def mixed(d):
         subs = []
@@ -636,11 +658,11 @@ def random_element(rng, m, leaves, maxdepth):
             elif x < 0.8:
                 subs.append(mixed(d + 1))
             else:
-                subs.append(sym())
+                subs.append(sym(d + 1))
         return mk_mixed(subs)
 
     for _ in range(100):
-        e = sym() if rng.random() < 0.15 else mixed(1)
+        e = sym(1) if rng.random() < 0.15 else mixed(1)
         if ref_size(e) <= 160 and legal(e, m):
             return e
     raise MachineryError("random element generator: no legal element found")
@@ -665,7 +687,7 @@ def run(ctx, args):
         "triangle immersed in 3D, interval in 2D/3D, interval with det<0; elements = all leaf pullback kinds x legal scalar/vector/tensor/blocked reference shapes, "
         "mixed pairs/triples, symmetric elements declared by a symmetry dictionary = ordered list of (block component, sub-element) entries: 2x2/3x3 (two numberings, "
         "diagonal/off-diagonal sub-element kinds) written in row-major order, EVERY one of the 24 ways of writing a 2x2 dictionary, column-major / reversed / diagonal-first / "
-        "upper-triangle-first 3x3 dictionaries, rectangular 2x3, rank-1 and rank-3 blocks; depth-2 nestings of mixed and symmetric (one with a non-row-major dictionary); "
+        "upper-triangle-first 3x3 dictionaries, rectangular 2x3, rank-1 and rank-3 blocks, symmetric elements whose sub-elements are mixed / symmetric; depth-2 nestings of mixed and symmetric (one with a non-row-major dictionary); "
         "each pair is replayed on real ufl (Coefficient, Argument, direct pullback.apply, f('+'), inner(f,v)*dx) and every physical component compared exactly; "
         "thorough adds seeded random element trees (depth <= 3, arbitrary symmetry maps of block rank 1-3 written in a random order) predicted by the validated transcription. "
         "distinct non-trivial = distinct (map, element) whose element is not a bare identity leaf"
